@@ -221,17 +221,24 @@ def run_c06(seed, focus):
                     todo.extend(dependents[n])
             return out
 
-        perturbations = [("modify", "src.txt")] + [("delete", o) for t in targets for o in t["outputs"]]
+        # "modify-link": src.txt is a symbolic link (with an old time of its own) and the file it points to is modified:
+        # the consumers must see the change of the file, not the unchanged link (S120)
+        perturbations = [("modify", "src.txt"), ("modify-link", "src.txt")] + [("delete", o) for t in targets for o in t["outputs"]]
         for kind, f in perturbations:
             tried += 1
             p = Project(targets)
             try:
                 prepare(p, targets, [], time.time() - 5000)
+                if kind == "modify-link":
+                    old = os.stat(p.path("src.txt")).st_mtime
+                    os.rename(p.path("src.txt"), p.path("raw-src.txt"))
+                    os.symlink("raw-src.txt", p.path("src.txt"))
+                    os.utime(p.path("src.txt"), (old, old), follow_symlinks=False)
                 p.gwf("run")
                 p.drain()
                 rows = parse_status(p.gwf("status")[1])
                 n0 = len(p.slurm()["jobs"])
-                if kind == "modify":
+                if kind in ("modify", "modify-link"):
                     if not any("src.txt" in t["inputs"] for t in targets):
                         continue
                     p.touch("src.txt", time.time() + 100000)
